@@ -1,6 +1,6 @@
 """C11 - tokenizing is lossless, total and faithful to character classes.
 
-Space: every string of length <= N over a 25-character alphabet (one or two representatives of every
+Space: every string of length <= N over a 26-character alphabet (one or two representatives of every
 character class the property names, the three aliases, blanks, and two unsupported characters), in both
 padding modes.  Oracle: the reference lexer O-lex."""
 from .. import par, watchdog
@@ -9,7 +9,7 @@ from ..gen import strings as G
 from ..oracle import reflex
 
 LEVEL = "exploration"
-ALPHABET = ["0", "7", ".", "x", "s", "g", "n", "A", "+", "-", "*", "/", "^", "!", "=", "(", ")", "[", "]",
+ALPHABET = ["0", "7", ".", "x", "s", "g", "n", "A", "S", "+", "-", "*", "/", "^", "!", "=", "(", ")", "[", "]",
             " ", "\t", "\n", "–", "#", "é"]
 BOUND = {"quick": 4, "thorough": 5}
 
@@ -25,11 +25,49 @@ _TOK = {}
 
 
 def _tokenizer(keep):
+    """a fresh tokenizer per call: every string is judged on its own (call histories are a separate pass)"""
     from mathy_core.tokenizer import Tokenizer
 
-    if keep not in _TOK:
-        _TOK[keep] = Tokenizer(exclude_padding=not keep)
-    return _TOK[keep]
+    return Tokenizer(exclude_padding=not keep)
+
+
+def _observe(tok, text):
+    try:
+        return ("tokens", tuple((t.type, t.value) for t in tok.tokenize(text)))
+    except Exception as e:  # noqa
+        return ("raise", type(e).__name__)
+
+
+def check_history(texts, keep):
+    """one long-lived tokenizer: every call must answer as a fresh tokenizer does"""
+    tok = _tokenizer(keep)
+    for i, t in enumerate(texts):
+        got = _observe(tok, t)
+        want = _observe(_tokenizer(keep), t)
+        if got != want:
+            return [("result-depends-on-earlier-calls", f"call {i + 1} tokenize({t!r}) after {texts[:i]!r}: {str(got)[:120]} vs fresh {str(want)[:120]}")]
+    return []
+
+
+def _all_strings(maxlen):
+    out = []
+    for n in range(0, maxlen + 1):
+        out += ["".join(x) for x in G.iterate(ALPHABET, n, 0, len(ALPHABET) ** n)]
+    return out
+
+
+def _work_hist(task):
+    firsts, seconds = task
+    acc = Acc()
+    for a in firsts:
+        for b in seconds:
+            for keep in (True, False):
+                acc.count("runs")
+                acc.count("histories")
+                for kind, detail in check_history([a, b], keep):
+                    acc.violation(f"{kind}|{a!r} ; {b!r}|padding={'kept' if keep else 'dropped'}",
+                                  {"texts": [a, b], "keep": keep, "kind": kind}, detail)
+    return acc
 
 
 def check_text(text, keep):
@@ -126,6 +164,12 @@ def run(tier, seed):
     k = seed % len(tasks)
     tasks = tasks[k:] + tasks[:k]
     acc = merge_all(par.pmap(_work, tasks))
+    s1, s2 = _all_strings(1), _all_strings(2)
+    if tier == "quick":
+        ht = [(s2[i::16], s1) for i in range(16)] + [(s1, s2[i::16]) for i in range(16)]
+    else:
+        ht = [(s2[i::64], s2) for i in range(64)]
+    acc.merge(merge_all(par.pmap(_work_hist, ht)))
     total = sum(len(ALPHABET) ** n for n in range(0, N + 1))
     cov = {
         "evaluations": acc.n["runs"],
@@ -136,12 +180,17 @@ def run(tier, seed):
         "exhaustive": True,
         "bound": {"max_length": N, "alphabet": ALPHABET},
         "accepted": acc.n["accepted"], "rejected_unsupported": acc.n["rejected"],
+        "two_call_histories_on_one_tokenizer": acc.n["histories"],
     }
     return acc, cov, ["one or two representative characters per class (digits 0 7, letters x s g n A, every operator and alias, "
                       "three blanks, two unsupported characters)"]
 
 
 def replay(case):
+    if case.get("kind") == "result-depends-on-earlier-calls":
+        a, b = case["texts"]
+        keep = case["keep"]
+        return [(f"{k}|{a!r} ; {b!r}|padding={'kept' if keep else 'dropped'}", d) for k, d in check_history([a, b], keep)]
     if case.get("kind") == "padding-modes-disagree":
         from mathy_core.tokenizer import TOKEN_TYPES
         a = [(t.type, t.value) for t in _tokenizer(True).tokenize(case["text"])]
